@@ -2,7 +2,10 @@
 """Regenerates MANIFEST.json from checks.json (single source of truth for per-property metadata)."""
 import json, os
 ROOT = os.path.dirname(os.path.dirname(os.path.abspath(__file__)))
-cfg = json.load(open(os.path.join(ROOT, "checks.json")))
+import glob
+cfg = {}
+for f in sorted(glob.glob(os.path.join(ROOT, "props", "*", "check.json"))):
+    c = json.load(open(f)); cfg[c["id"]] = c
 props = [json.loads(l)["id"] for l in open(os.path.join(ROOT, "properties.jsonl"))]
 na = json.load(open(os.path.join(ROOT, "not_applicable.json"))) if os.path.exists(os.path.join(ROOT, "not_applicable.json")) else {}
 checks = []
